@@ -30,6 +30,8 @@ META = {
                    'thorough': 'all boolean tables <= 3x3 plus all 3x4, 4x3 and 4x4 tables'},
     'assumptions': ['raw pairs are decoded through their public members()'],
 }
+META['rule'] += (' BIGLAT: additionally the Boolean lattice of 16 384 concepts (contranominal scale 14) in the quick '
+                 'tier and those of 32 768 and 65 536 concepts in the thorough tier.')
 
 
 def _decode(items):
@@ -140,7 +142,7 @@ def cases(tier, seed, spec):
     yield from (c for c in gen.deep(tier, seed) if tier == 'thorough' or c['fam'].endswith('specific-first'))
     yield from repeated_exh(tier, seed)
     yield from gen.repeated(seed, 16 if tier == 'quick' else 400)
-    yield from gen.biglat(tier)
+    yield from gen.biglat(tier, quick_sizes=(14,))
     yield from gen.ctx_stream(tier, seed)
 
 
